@@ -507,18 +507,34 @@ func c13History(c *vrep.Ctx) {
 		}
 		return cl
 	}
+	// what the caller holds on to from the previous call (rendered again after the next one)
+	var heldNM *Match
+	var heldMM Matches
+	renderHeld := func() string {
+		out := "held:"
+		if heldNM != nil {
+			out += fmt.Sprintf(" NM %+v", *heldNM)
+		}
+		for _, m := range heldMM {
+			out += fmt.Sprintf(" %+v", *m)
+		}
+		return out
+	}
 	run := func(cl *Classifier, op int) string {
 		u := unknowns[op/2]
 		var out string
 		p, d := underSched(func() {
 			if op%2 == 0 {
-				if m := cl.NearestMatch(u); m != nil {
+				m := cl.NearestMatch(u)
+				heldNM, heldMM = m, nil
+				if m != nil {
 					out = fmt.Sprintf("NM %+v", *m)
 				} else {
 					out = "NM nil"
 				}
 			} else {
 				ms := cl.MultipleMatch(u)
+				heldNM, heldMM = nil, ms
 				out = "MM"
 				for _, m := range ms {
 					out += fmt.Sprintf(" %+v", *m)
@@ -540,7 +556,7 @@ func c13History(c *vrep.Ctx) {
 			fresh[fmt.Sprint(ti, op)] = run(mk(t), op)
 		}
 	}
-	c.R.Rule = fmt.Sprintf("ALL sequences of 1..%d calls from {NearestMatch, MultipleMatch} x %d unknown texts (exact value, near values of similar and of greater length, a short value with context, unrelated text, two values in one text) on ONE classifier with three values (two of them similar) x thresholds %v: every call returns exactly what it returns on a fresh classifier, and every Offset/Extent lies inside its own normalised unknown; non-trivial = distinct sequences", maxOps, len(unknowns), ts)
+	c.R.Rule = fmt.Sprintf("ALL sequences of 1..%d calls from {NearestMatch, MultipleMatch} x %d unknown texts (exact value, near values of similar and of greater length, a short value with context, unrelated text, two values in one text) on ONE classifier with three values (two of them similar) x thresholds %v: every call returns exactly what it returns on a fresh classifier, what the previous call returned does not change during the next one, and every Offset/Extent lies inside its own normalised unknown; non-trivial = distinct sequences", maxOps, len(unknowns), ts)
 	c.Bound("max_calls", maxOps)
 	body := func(r *vx.Run) {
 		ti := r.Choose(len(ts), "threshold")
@@ -555,7 +571,18 @@ func c13History(c *vrep.Ctx) {
 		cl := mk(ts[ti])
 		msg := ""
 		for i, op := range ops {
+			before := renderHeld()
+			keepNM, keepMM := heldNM, heldMM
 			got := run(cl, op)
+			if i > 0 {
+				nowNM, nowMM := heldNM, heldMM
+				heldNM, heldMM = keepNM, keepMM
+				if after := renderHeld(); after != before {
+					msg = fmt.Sprintf("what call %d returned changed during call %d: was %s, is %s", i-1, i, before, after)
+					break
+				}
+				heldNM, heldMM = nowNM, nowMM
+			}
 			if strings.Contains(got, " RANGE: ") || strings.HasPrefix(got, "panic=") {
 				msg = fmt.Sprintf("call %d: %s", i, got)
 				break
